@@ -1,6 +1,7 @@
 """ A group of BIDS files with specified suffix name. """
 
 import os
+import copy
 from hed.errors.error_reporter import ErrorHandler
 from hed.validator.sidecar_validator import SidecarValidator
 from hed.tools.analysis.tabular_summary import TabularSummary
@@ -50,7 +51,13 @@ class BidsFileGroup:
         for bids_obj in self.datafile_dict.values():
             sidecar_list = self.get_sidecars_from_path(bids_obj)
             if sidecar_list:
-                bids_obj.sidecar = self.sidecar_dict[sidecar_list[-1]]
+                sidecar = self.sidecar_dict[sidecar_list[-1]]
+                if self.get_sidecars_from_path(sidecar) != sidecar_list:
+                    # The deepest sidecar was merged along its own inheritance chain, which misses sidecars that
+                    # apply to this data file through entities that are not in the deepest sidecar's name.
+                    sidecar = copy.copy(sidecar)
+                    sidecar.set_contents(content_info=sidecar_list, overwrite=True)
+                bids_obj.sidecar = sidecar
 
     def get_sidecars_from_path(self, obj):
         """ Return applicable sidecars for the object.
